@@ -396,6 +396,7 @@ func runCase(c Case) lib.Result {
 	res.Term = fmt.Sprintf("mk %d %s", c.Cap, lib.List(terms))
 	res.Impl = impl
 	res.NonTrivial = wrapped && readAfterWrap
+	res.Heavy = c.Cap > 100000
 	for t := range tags {
 		res.Tags = append(res.Tags, t)
 	}
